@@ -10,13 +10,15 @@ use crate::gosem::GoVerdict;
 use crate::oracle::*;
 use serde_json::{Value, json};
 
-pub const HOSTILE: [&str; 81] = [
+pub const HOSTILE: [&str; 90] = [
     // Go keywords that are not goml keywords
     "break", "case", "chan", "const", "continue", "default", "defer", "fallthrough", "func", "goto", "interface", "map", "range", "select", "switch", "var",
     // predeclared identifiers and package names the output relies on
     "len", "append", "panic", "println", "print", "nil", "any", "fmt", "main0", "int", "uint", "byte", "rune", "error", "make", "new", "cap", "copy", "iota", "float",
     // runtime helpers
     "string_println", "string_print", "int32_to_string", "missing", "unit_to_string", "bool_to_string", "json_escape_string", "string_len", "string_get",
+    // builtins that the compiler expands where they are called (it recognises them by name)
+    "vec_new", "vec_push", "vec_get", "vec_len", "ref", "ref_get", "ref_set", "array_get", "array_set",
     // compiler temporaries and generated names
     "x0", "t1", "t2", "mtmp0", "ret2", "ret5", "cond3", "env4", "wild6", "Tuple2_int32_int32", "Tuple2_int32_bool", "closure_env_main_0", "ref_int32_x", "dyn__Tr", "dyn__Tr_vtable",
     // spellings of the compiler's own type representation (it must not recognise them inside user names)
@@ -175,7 +177,7 @@ impl Family for NamesFamily {
         &["C19", "C02", "C04"]
     }
     fn rule(&self) -> &'static str {
-        "81 hostile identifiers (Go keywords that goml allows, predeclared identifiers, runtime helper names, compiler temporaries, generated type/helper names, spellings of the compiler's own type representation, the entry point's names, mangling look-alikes such as a__0) x 17 roles (fn / struct / variant of an imported package, fn, param, local, pattern variable, closure parameter, struct, field, enum, variant, trait, method, type parameter, fn next to temporaries, fn called from a closure) plus 14 collision witnesses for generated names, plus 21 programs declaring two entities of one name in one namespace (functions, types, traits, parameters of functions/methods/impl methods, variants, fields, extern vs fn, methods of one impl) that must be rejected; oracle: emitted Go passes the Go checker and prints exactly what the twin with a benign identifier prints (= the hard-wired expected output). non-trivial = cases whose hostile name survives into the Go text unescaped or mangled; distinct = distinct source text"
+        "90 hostile identifiers (Go keywords that goml allows, predeclared identifiers, runtime helper names, the builtins expanded at their call sites, compiler temporaries, generated type/helper names, spellings of the compiler's own type representation, the entry point's names, mangling look-alikes such as a__0) x 17 roles (fn / struct / variant of an imported package, fn, param, local, pattern variable, closure parameter, struct, field, enum, variant, trait, method, type parameter, fn next to temporaries, fn called from a closure) plus 14 collision witnesses for generated names, plus 21 programs declaring two entities of one name in one namespace (functions, types, traits, parameters of functions/methods/impl methods, variants, fields, extern vs fn, methods of one impl) that must be rejected; oracle: emitted Go passes the Go checker and prints exactly what the twin with a benign identifier prints (= the hard-wired expected output). non-trivial = cases whose hostile name survives into the Go text unescaped or mangled; distinct = distinct source text"
     }
     fn cases(&self, _tier: Tier) -> Box<dyn Iterator<Item = Value> + '_> {
         let mut v = Vec::new();
